@@ -13,7 +13,7 @@ def validatePolygonFlags (flags : BitVec 32) : Option H3Error :=
 /-- the primitive predicates `iterStepPolygonCompact` evaluates for a cell of the target resolution -/
 structure CellPrims where
   centerIn : Bool          -- pointInsidePolygon(cell centre)
-  firstVtx : Bool          -- first polygon vertex in valid range and latLngToCell(vertex) == cell
+  firstVtx : Bool          -- first vertex of the outer loop or of a hole in valid range and latLngToCell(vertex) == cell
   boundaryInside : Bool    -- cellBoundaryInsidePolygon
   crosses : Bool           -- cellBoundaryCrossesPolygon
   bboxOverlap : Bool       -- bboxOverlapsBBox(polygon bbox, covering bbox of the cell)
